@@ -106,6 +106,9 @@ theorem satFields_qNames (p : String → Bool) : ∀ fs : List Field, satFields 
   | f :: fs => by simp [satFields, enumNamesFields, sat_qNames p f.ty, satFields_qNames p fs]; simp [qNames]
 end
 
+theorem satTop_qNames (p : String → Bool) (t : Ty) : satTop (qNames p) t = enumNamesTy p t := by
+  cases t <;> simp [satTop, sat_qNames, satFields_qNames, enumNamesTy] <;> simp [qNames]
+
 /-- an object type whose only enum is itself satisfies a name rule as soon as its own members do -/
 theorem enumNames_of_top (p : String → Bool) (r : Ty) (h : enumsNamedTop r = true)
     (hm : ∀ vs m, r = .enum vs m → allMembers p vs = true) : enumNamesTy p r = true := by
